@@ -5,17 +5,25 @@ V = os.path.dirname(os.path.dirname(os.path.abspath(__file__)))
 props = [json.loads(l)['id'] for l in open(os.path.join(V, 'properties.jsonl'))]
 m = json.load(open(os.path.join(V, 'MANIFEST.json')))
 checks = {}
+hold = set()
+hp = os.path.join(V, 'manifest', 'HOLD')
+if os.path.exists(hp):
+    hold = {l.split()[0] for l in open(hp) if l.strip() and not l.startswith('#')}
 for f in sorted(glob.glob(os.path.join(V, 'manifest', 'C*.json'))):
     c = json.load(open(f))
+    if c['property_id'] in hold:
+        continue
     checks[c['property_id']] = c
 m['checks'] = [checks[p] for p in props if p in checks]
 reasons = {x['property_id']: x['reason'] for x in m.get('not_applicable', [])}
-m['not_applicable'] = [{'property_id': p, 'reason': reasons.get(p, 'check not built yet (see DESIGN.md §6.4 build order)')} for p in props if p not in checks]
+m['not_applicable'] = [{'property_id': p, 'reason': ('check built, being brought up to date with a fix: commit in /repo before it is claimed (see notes/%s.md)' % p) if p in hold else reasons.get(p, 'check not built yet (see DESIGN.md §6.4 build order)')} for p in props if p not in checks]
 for e in m.get('engines', []):
     e['serves_properties'] = [p for p in props if p in checks]
 json.dump(m, open(os.path.join(V, 'MANIFEST.json'), 'w'), indent=1)
 findings = []
 for f in sorted(glob.glob(os.path.join(V, 'known', '*.json'))):
+    if os.path.basename(f)[:-5] in hold:
+        continue
     findings += json.load(open(f))
 json.dump({'comment': 'committed list of defects of the unchanged tree that are recorded rather than repaired (status known) and of repaired ones (status fixed; suppress nothing). Never written at run time.',
            'findings': findings}, open(os.path.join(V, 'known_findings.json'), 'w'), indent=1)
